@@ -89,9 +89,28 @@ func c01One(i int, r *rand.Rand, res *core.Result) {
 	}
 	var sampleDesc []string
 	rejected := 0
+	if r.Intn(3) == 0 {
+		// twin JobConfigs: the same schedule under the same name in two namespaces (they fall due together)
+		lines := []string{frequentExpr(r, quartz, false)}
+		tz := tzChoices[r.Intn(len(tzChoices))]
+		for _, ns := range []string{"twin-a", "twin-b"} {
+			if created, err := h.jcClient(ns).Create(context.Background(), cronJobConfig(ns, "twin", lines, tz), metav1.CreateOptions{}); err == nil {
+				if s, err := refParse(created, g); err == nil {
+					refs[ns+"/twin"] = &refJC{sched: s, uid: string(created.UID), desc: fmt.Sprintf("%s/twin %q tz=%q", ns, lines, tz)}
+					classes["same-name-two-namespaces"] = true
+				}
+			}
+		}
+	}
 	for k := 0; k < njc; k++ {
 		ns := []string{"default", "team-a"}[r.Intn(2)]
 		name := fmt.Sprintf("jc-%d", k)
+		if k%2 == 1 && r.Intn(2) == 0 {
+			// the same name in the other namespace as the previous JobConfig: two JobConfigs, one name
+			name = fmt.Sprintf("jc-%d", k-1)
+			ns = "team-b"
+			classes["same-name-two-namespaces"] = true
+		}
 		nexp := 1
 		if r.Intn(4) == 0 {
 			nexp = 2 + r.Intn(3)
@@ -202,7 +221,7 @@ func c01One(i int, r *rand.Rand, res *core.Result) {
 		h.clk.Delta = 0
 		last := h.clk.Last
 		if !ok {
-			viol("work-does-not-terminate", "tick %d at %v: CronWorker.Work() read the clock more than %d times (clock advancing by %v per reading) and did not return", tick, first.Format(time.RFC3339Nano), budget, adv)
+			viol("work-does-not-terminate", "tick %d at %v: CronWorker.Work() read the clock more than %d times (clock advancing by %v per reading) and did not return", tick, first.Format(time.RFC3339Nano), h.clk.Reads-1, adv)
 			return
 		}
 		res.Evaluations++
